@@ -66,8 +66,25 @@ def check(ctx):
                         and isinstance(g_.module.parent.get(g_.module.parent.get(n)), ast.Call) for n in loads)
                 if not through:
                     raw.append(sub)
-            others += [n for n in body_nodes(g_.node) if isinstance(n, ast.Call) and isinstance(n.func, ast.Attribute)
-                       and n.func.attr in ("items", "values", "columns") and norm(n.func.value) == p0]
+            for n in [n for n in body_nodes(g_.node) if isinstance(n, ast.Call) and isinstance(n.func, ast.Attribute)
+                      and n.func.attr in ("items", "values", "columns") and norm(n.func.value) == p0]:
+                # for name, column in self.items(): ... column.tolist() ...  -- the column variable only ever appears as the
+                # receiver of tolist(): the same sanitised exit as self[name].tolist()
+                par = g_.module.parent.get(n)
+                colvar = None
+                if isinstance(par, (ast.For, ast.comprehension)) and par.iter is n:
+                    tg = par.target
+                    if n.func.attr == "items" and isinstance(tg, ast.Tuple) and len(tg.elts) == 2 and isinstance(tg.elts[1], ast.Name):
+                        colvar = tg.elts[1].id
+                    elif n.func.attr == "values" and isinstance(tg, ast.Name):
+                        colvar = tg.id
+                if colvar is not None:
+                    loads = [m for m in body_nodes(g_.node) if isinstance(m, ast.Name) and m.id == colvar and isinstance(m.ctx, ast.Load)]
+                    if loads and all(isinstance(g_.module.parent.get(m), ast.Attribute) and g_.module.parent.get(m).attr == "tolist"
+                                     and isinstance(g_.module.parent.get(g_.module.parent.get(m)), ast.Call) for m in loads):
+                        subs.append((g_, loads[0]))
+                        continue
+                others.append(n)
             cols_attr += [n for n in body_nodes(g_.node) if isinstance(n, ast.Attribute) and n.attr == "columns" and norm(n.value) == p0]
         ok = bool(subs) and not raw and not others and not cols_attr
         ctx.ob("TNT-tolist", fn, f"columns leave through {[norm(g_.module.parent.get(s_)) for g_, s_ in subs]}", fn.node, ok,
@@ -78,7 +95,8 @@ def check(ctx):
         it = [g.iter for n in ast.walk(fn.node) if isinstance(n, (ast.ListComp, ast.DictComp)) for g in n.generators] + \
              [n.iter for n in ast.walk(fn.node) if isinstance(n, ast.For)]
         it += [n.iter for g_, p0 in scopes[1:] for n in ast.walk(g_.node) if isinstance(n, ast.For)]
-        ok = any(norm(i) in (f"{s0}.colnames",) + tuple(f"{p0}.colnames" for _, p0 in scopes) for i in it)
+        ok = any(norm(i) in (f"{s0}.colnames", f"{s0}.items()") + tuple(f"{p0}.colnames" for _, p0 in scopes)
+                 + tuple(f"{p0}.items()" for _, p0 in scopes) for i in it)
         ctx.ob("TNT-tolist", fn, "one field per column, in colnames order", fn.node, ok,
                "all columns are exported in order" if ok else "exporter does not iterate self.colnames", nontrivial=False,
                clause="same column names and order")
@@ -100,14 +118,33 @@ def check(ctx):
     tl = repo.fn(f"{DF}.to_list_of_dicts")
     rows = [n for n in body_nodes(tl.node) if isinstance(n, ast.Assign) and isinstance(n.value, ast.ListComp)
             and "range(" in norm(n.value) and "nrow" in norm(n.value)]
-    if not rows or not [n for n in body_nodes(tl.node) if isinstance(n, ast.Assign) and isinstance(n.targets[0], ast.Subscript)
-                        and isinstance(n.targets[0].value, ast.Subscript)]:
+    def _record_stores():
+        """data[i][colname] = value, or row[colname] = value with row walking the record list (for row, v in zip(data, ...))."""
+        rname = norm(rows[0].targets[0]) if rows else None
+        out = []
+        for n in body_nodes(tl.node):
+            if not (isinstance(n, ast.Assign) and isinstance(n.targets[0], ast.Subscript)):
+                continue
+            base = n.targets[0].value
+            if isinstance(base, ast.Subscript) and (rname is None or norm(base.value) == rname):
+                out.append(n)
+            elif isinstance(base, ast.Name) and rname is not None:
+                lp = tl.module.parent.get(n)
+                while lp is not None and lp is not tl.node:
+                    if isinstance(lp, ast.For) and any(isinstance(t, ast.Name) and t.id == base.id for t in ast.walk(lp.target)):
+                        it = lp.iter
+                        srcs = it.args if isinstance(it, ast.Call) and isinstance(it.func, ast.Name) and it.func.id in ("zip", "enumerate") else [it]
+                        if any(norm(a) == rname for a in srcs):
+                            out.append(n)
+                        break
+                    lp = tl.module.parent.get(lp)
+        return out
+    if not rows or not _record_stores():
         raise AnalysisError(f"{tl.qualname}: the records are not built as one dict per range(nrow) filled by data[i][colname] = value; "
                             f"the one-record-per-row / one-field-per-column rules have nothing to judge")
     ctx.ob("TNT-tolist", tl, norm(rows[0]) if rows else "data = [{} for i in range(self.nrow)]", rows[0] if rows else tl.node, bool(rows),
            "one record per row" if rows else "records are not created one per row", nontrivial=False, clause="one record per row")
-    st = [n for n in body_nodes(tl.node) if isinstance(n, ast.Assign) and isinstance(n.targets[0], ast.Subscript)
-          and isinstance(n.targets[0].value, ast.Subscript)]
+    st = _record_stores()
     ok = bool(st)
     why = "every record receives every column, None included"
     for s_ in st:
